@@ -576,7 +576,10 @@ fn drive(routes: &mut Routes, uri: http::Uri, payload: &[u8], log: &Log) -> Resu
     *req.method_mut() = http::Method::POST;
     *req.version_mut() = http::Version::HTTP_2;
     *req.uri_mut() = uri;
-    req.headers_mut().insert("content-type", http::HeaderValue::from_static("application/grpc"));
+    // the request's content-type may name the message format (gRPC allows application/grpc[+format]); which
+    // spelling is used follows from the payload so that both registration orders see the same request
+    let ct = ["application/grpc", "application/grpc+proto", "application/grpc", "application/grpc+json"][payload.len() % 4];
+    req.headers_mut().insert("content-type", http::HeaderValue::from_static(ct));
     req.headers_mut().insert("te", http::HeaderValue::from_static("trailers"));
     let ready = poll_budget(BUDGET, |cx| tower_service::Service::<http::Request<tonic::body::Body>>::poll_ready(routes, cx));
     ensure!(matches!(ready, Ok(Ok(()))), "C10/routes-not-ready", "Routes::poll_ready did not become ready");
